@@ -246,6 +246,52 @@ def judge_tuple(ctx, rng, j):
         ctx.violation('make-adapter-private-failed',
                       'MAKE_ADAPTER_SIG_PRIVATE failed', base, '(T, R, sa)',
                       repr(exc)[:80] if exc else st)
+    # ---- the same instructions after OTHER adapter work in the same run
+    # (one cache): an earlier adapter for another tweak point / signer must
+    # not leak into a later check, decryption or creation
+    seed_o = rbytes(rng, 32)
+    m_o = rbytes(rng, rng.choice((1, 32, 100)))
+    t_o = le((t_eff * 7 + 12345 + rng.randrange(1 << 60)) % L or 5)
+    st, exc = run(isa.push(t_o) + O('DERIVE_POINT'))
+    T_o = st[0] if exc is None and st else T
+    prefixes = {
+        'make-public': isa.push(seed_o) + isa.push(m_o) + isa.push(T_o)
+        + O('MAKE_ADAPTER_SIG_PUBLIC') + O('POP1') + b'\x02',
+        'make-private': isa.push(m_o) + isa.push(t_o) + isa.push(seed_o)
+        + O('MAKE_ADAPTER_SIG_PRIVATE') + O('POP1') + b'\x03',
+        'decrypt': isa.push(sa) + isa.push(R) + isa.push(t_o)
+        + O('DECRYPT_ADAPTER_SIG') + O('POP1') + b'\x02',
+        'check': cas_prog(E.public_key(seed_o), T_o, m_o, R, sa) + O('POP0'),
+        'derive': isa.push(t_o) + O('DERIVE_POINT') + O('POP0')
+        + isa.push(seed_o) + O('DERIVE_SCALAR') + O('POP0'),
+    }
+    mains = {
+        'decrypt': (isa.push(sa) + isa.push(R) + isa.push(t)
+                    + O('DECRYPT_ADAPTER_SIG'), [RT, want_s]),
+        'check': (cas_prog(X, T, m, R, sa), [b'\xff']),
+        'make-public': (isa.push(seed) + pm + isa.push(T)
+                        + O('MAKE_ADAPTER_SIG_PUBLIC'), [R, sa]),
+    }
+    names = sorted(prefixes)
+    for q in range(2):
+        pn = names[(j + q * 3) % len(names)]
+        pn2 = names[(j * 5 + q + 1) % len(names)]
+        pre = prefixes[pn] + (prefixes[pn2] if q else b'')
+        for mn, (mp, want_st) in mains.items():
+            st, exc = run(pre + mp)
+            ctx.evaluated()
+            ctx.tab('same_run', f'{pn}{"+" + pn2 if q else ""} -> {mn}')
+            if exc is not None or st != want_st:
+                ctx.violation(f'adapter-op-depends-on-earlier-op:{mn}',
+                              f'{mn} after {pn}{"+" + pn2 if q else ""} (other '
+                              'signer / tweak) in the same run does not give '
+                              'what it gives in a run of its own',
+                              dict(base, prefix=pre, main=mp),
+                              [x.hex() for x in want_st],
+                              repr(exc)[:100] if exc
+                              else [x.hex() for x in st])
+            else:
+                ctx.mark_nontrivial(dg('same-run', pn, mn, seed, t))
     if j % 40 == 0:
         ctx.sample({'seed': seed, 'm_len': len(m), 'tweak_kind': tk, 't': t,
                     'R': R, 'sa': sa})
